@@ -243,3 +243,7 @@ def rule_module_callback(rep: Report, repo: Repo, rule: str) -> None:
                           f"cminx.aggregator:{lm.cls}.enterDocumented_module", f"doc = {doc[:90]}",
                           "the module body is not the remaining doccomment lines")
     rep.floor(rule, 3, "module callback facts")
+    # "the prefix": the one in effect - -p outranks a settings file (source order of the configuration)
+    from .c16 import rule_source_order
+    with rep.isolated():
+        rule_source_order(rep, repo, "C12-R8")
